@@ -281,6 +281,35 @@ def rule_r1(ctx: Ctx) -> None:
 
 
 # ---------------------------------------------------------------------------------------------------- R2
+def delimiter_guard_table(ctx: Ctx, fname: str, runs: Any, rems: Any = (0, 7, 8, 9, 16, 64), headers: Any = (0, 1, 2, 8, 9, 2**32 - 1)) -> List[Dict[str, Any]]:
+    """the decision of the delimiter-header guard for (header value, bits remaining after the header): rejected exactly when
+    8 x header exceeds what remains; otherwise a window of exactly 8 x header bits (shared with C14.R6)"""
+    from .. import codec as C
+
+    bad: List[Dict[str, Any]] = []
+    for rem in rems:
+        for h in headers:
+            sel = C.select_run(runs, {"read": h, "remaining": rem})
+            ctx.count()
+            if len(sel) != 1:
+                raise AnalysisError("%s: %d abstract runs match header %d with %d bits remaining" % (fname, len(sel), h, rem))
+            r = sel[0]
+            if 8 * h > rem:
+                if r.raised != "DelimiterHeaderError":
+                    bad.append({"header": h, "remaining": rem, "found": r.raised or "accepted"})
+                continue
+            subs = [e for e in C.normalize(r.events, True) if e[0] == "SUB"]
+            width = None
+            if len(subs) == 1:
+                try:
+                    width = C.eval_abs(C._subst_atoms(subs[0][2], {"read": h}), {})
+                except (KeyError, TypeError):
+                    width = None
+            if r.raised or len(subs) != 1 or width != 8 * h:
+                bad.append({"header": h, "remaining": rem, "found": r.raised or "window of %s bits" % width})
+    return bad
+
+
 def rule_r2(ctx: Ctx) -> None:
     """decision tables of the reader's validation guards, from the abstract runs of the decoder (sa/codec.py)"""
     from .. import codec as C
@@ -335,27 +364,7 @@ def rule_r2(ctx: Ctx) -> None:
     for d in S["delimited"][:1]:
         for fname, kw in (("_deserialize_composite", {}), ("deserialize", {"with_delimiter_header": True})):
             runs = K.reader_runs(ctx, fname, d, **kw)
-            bad = []
-            for rem in (0, 7, 8, 9, 16, 64):
-                for h in (0, 1, 2, 8, 9, 2**32 - 1):
-                    sel = C.select_run(runs, {"read": h, "remaining": rem})
-                    ctx.count()
-                    if len(sel) != 1:
-                        raise AnalysisError("%s: %d abstract runs match header %d with %d bits remaining" % (fname, len(sel), h, rem))
-                    r = sel[0]
-                    if 8 * h > rem:
-                        if r.raised != "DelimiterHeaderError":
-                            bad.append({"header": h, "remaining": rem, "found": r.raised or "accepted"})
-                        continue
-                    subs = [e for e in C.normalize(r.events, True) if e[0] == "SUB"]
-                    width = None
-                    if len(subs) == 1:
-                        try:
-                            width = C.eval_abs(C._subst_atoms(subs[0][2], {"read": h}), {})
-                        except (KeyError, TypeError):
-                            width = None
-                    if r.raised or len(subs) != 1 or width != 8 * h:
-                        bad.append({"header": h, "remaining": rem, "found": r.raised or "window of %s bits" % width})
+            bad = delimiter_guard_table(ctx, fname, runs)
             ctx.check(not bad, "_serdes.%s[DelimitedType]" % fname, "delimiter header guard", "a header announcing more bytes than remain is DelimiterHeaderError; otherwise the nested object is confined to exactly 8 x header bits", where, bad[:4])
             # which quantity is compared: the header just read against the bits remaining *in this reader* after the header
             hdr_first = all((not r.events) or r.events[0][0] == "BITS" for r in runs)
